@@ -105,6 +105,13 @@ type Case struct {
 	LateConc []Op      `json:"late_conc"` // adds issued concurrently with provider.Shutdown
 	Late     []Op      `json:"late"`      // adds issued after Shutdown returned
 	Runs     int       `json:"runs"`
+	// Broken: "" | "first" | "last": an EXTRA, misconfigured ManualReader (its
+	// aggregation selector asks for a last-value aggregation of counters, which
+	// the SDK rejects) registered before / after the readers above. Creating an
+	// instrument then reports an error for that reader, but every correctly
+	// configured reader must still see every measurement. The broken reader is
+	// not part of Readers and nothing is asserted about it.
+	Broken string `json:"broken,omitempty"`
 }
 
 func kvI(k string, v int64) vk.KV   { return vk.KV{K: vk.Str(k), T: "int", I: v} }
@@ -258,6 +265,7 @@ func gen(t *rapid.T) Case {
 		}
 	}
 	c.Runs = 2
+	c.Broken = rapid.SampledFrom([]string{"", "", "", "", "", "first", "last"}).Draw(t, "broken_reader")
 	return c
 }
 
@@ -283,6 +291,7 @@ func genSeq(t *rapid.T) Case {
 		c.Late = append(c.Late, ag.draw(t, none))
 	}
 	c.Runs = 1
+	c.Broken = rapid.SampledFrom([]string{"", "", "", "", "first", "last"}).Draw(t, "broken_reader")
 	return c
 }
 
@@ -619,6 +628,16 @@ func runOnce(c Case) ([]vk.Violation, map[string]bool) {
 			opts = append(opts, sdkmetric.WithReader(mr))
 		}
 	}
+	if c.Broken != "" {
+		br := sdkmetric.WithReader(sdkmetric.NewManualReader(sdkmetric.WithAggregationSelector(func(sdkmetric.InstrumentKind) sdkmetric.Aggregation {
+			return sdkmetric.AggregationLastValue{}
+		})))
+		if c.Broken == "first" {
+			opts = append([]sdkmetric.Option{opts[0], br}, opts[1:]...)
+		} else {
+			opts = append(opts, br)
+		}
+	}
 	mp := sdkmetric.NewMeterProvider(opts...)
 	meters := []metric.Meter{mp.Meter(scopeName(0)), mp.Meter(scopeName(1))}
 	adders := make([]adder, len(c.Insts))
@@ -645,8 +664,11 @@ func runOnce(c Case) ([]vk.Violation, map[string]bool) {
 			x, err = m.Float64UpDownCounter(name)
 			adders[ii] = func(ctx context.Context, u int64, o metric.AddOption) { x.Add(ctx, float64(u)/8, o) }
 		}
-		if err != nil {
+		if err != nil && c.Broken == "" {
 			bad("instrument_creation", "creating %s %s: %v", in.Kind, name, err)
+		}
+		if err == nil && c.Broken != "" {
+			bad("instrument_creation", "creating %s %s reported no error although one reader asks for an aggregation that is incompatible with it", in.Kind, name)
 		}
 	}
 	attrs := make([][]attribute.KeyValue, len(c.Sets))
@@ -1192,6 +1214,7 @@ func run(c Case) ([]vk.Violation, vk.Info) {
 		kinds[r.Temp] = true
 		info.ClassIf(r.Kind == "periodic" && r.IntervalUs > 1e6, "periodic_reader_without_ticks")
 	}
+	info.ClassIf(c.Broken != "", "extra_misconfigured_reader")
 	info.ClassIf(len(c.Readers) >= 2, "two_or_more_readers")
 	info.ClassIf(len(kinds) >= 2, "mixed_temporalities")
 	nadds, zero, neg, recorders := 0, false, false, 0
